@@ -105,7 +105,7 @@ def message_in_flight(r, step):
 
 
 def failureish(op):
-    return (op[0] in ('adv', 'wsclose') or (op[0] == 'reply' and op[2][0] != 'ok') or (op[0] == 'wsframe' and op[1][0] == 'garbage') or
+    return (op[0] in ('adv', 'wsclose', 'wsframeclose') or (op[0] == 'reply' and op[2][0] != 'ok') or (op[0] == 'wsframe' and op[1][0] == 'garbage') or
             (op[0] == 'reply' and op[2][0] == 'ok' and any(p[0] == 'open' for p in op[2][1][1:])) or
             (op[0] == 'reply' and op[2][0] == 'ok' and len(op[2][1]) > 16))
 
@@ -136,7 +136,7 @@ def allowed_reasons(r, step):
 def pkts_of(op):
     if op[0] == 'reply' and op[2][0] == 'ok':
         return op[2][1]
-    if op[0] == 'wsframe' and op[1][0] == 'pk':
+    if op[0] in ('wsframe', 'wsframeclose') and op[1][0] == 'pk':
         return [op[1][1]]
     return []
 
@@ -229,7 +229,7 @@ def c09_silence(res, r, slack=chist_slack()):
     I = T = None
     last = 0
     for i, op in enumerate(r.log):
-        if op[0] in ('reply', 'wsframe', 'wsanswer', 'wsclose') or (op[0] == 'call' and op[1] == 'connect'):
+        if op[0] in ('reply', 'wsframe', 'wsframeclose', 'wsanswer', 'wsclose') or (op[0] == 'call' and op[1] == 'connect'):
             last = r.times[i]
         for p in pkts_of(op):
             if p[0] == 'open' and p[1]:
